@@ -58,7 +58,7 @@ func genC07(t *simrt.Tape, tier string) Scenario {
 	sc := &c07Scenario{probes: map[string]int{}}
 	sc.Kind = []string{"buffered", "buffered", "buffered", "chan"}[t.Choose(4)]
 	sc.Cap = []int{1, 0, 2, 3, 5}[t.Choose(5)]
-	sc.BufMax = []int{2, 0, 1, 5, 50}[t.Choose(5)]
+	sc.BufMax = []int{2, 0, 1, 5, 50, -1}[t.Choose(6)]
 	if sc.Kind == "chan" {
 		sc.BufMax = 0
 	}
